@@ -471,7 +471,7 @@ func main() {
 	r.Set("layer1_distinct_pool_lines", l1states)
 
 	// ---- layer 2: explicit-state BFS over the reference model, each new state replayed on the interpreter
-	depth, capStates := 3, 250000
+	depth, capStates := 3, 600000
 	if r.Thorough() {
 		depth, capStates = 5, 300000
 	}
